@@ -1,7 +1,7 @@
 (* C06 property theorems.  Nothing but statements closed by `exact`, a pin, and
    Print Assumptions.  The driver parses this file's output. *)
 From ZV.Common Require Import Base.
-From ZV.C06 Require Import Model ModelGold ModelEasy ModelIdx ModelFast ModelStr Spec ProofsBasic ProofsScan ProofsRefine ProofsSmall ProofsGoldRefine ProofsEasy ProofsIdxRefine ProofsFast ProofsStr.
+From ZV.C06 Require Import Model ModelGold ModelEasy ModelIdx ModelFast ModelStr ModelEasyX Spec ProofsBasic ProofsScan ProofsRefine ProofsSmall ProofsGoldRefine ProofsEasy ProofsIdxRefine ProofsFast ProofsStr ProofsEasyX.
 Open Scope N_scope.
 
 (* normalize_hash never produces a slot marker, whatever the hasher returned *)
@@ -148,3 +148,15 @@ Proof. exact hashstr_counters_proof. Qed.
 Check hashstr_counters :
   forall ops, let m := hs_exec hs_new ops in nlen (hs_map m) <= hs_unique m /\ hs_unique m <= hs_total m.
 Print Assumptions hashstr_counters.
+
+(* --- extension: EasyHashMap's entry points built from put(): get_or_insert / get_or_insert_with (code 12: contains_key,
+   put if absent - possibly through the growth rebuild -, get_mut(..).expect(..)) and extend / Extend / FromIterator
+   (code 15: one put of the loop).  The `expect` never fires (no OErr), the answer is the value found or inserted. --- *)
+Theorem easy_ext_refines_map :
+  forall (h : N -> N) (grow : N -> N -> bool) (auto : bool) (c : N) (ops : list op),
+    pow2cap c -> Forall2 obs_agree (easy_runx h grow auto (init c) ops) (srunx [] ops).
+Proof. exact easy_ext_refines_map_proof. Qed.
+Check easy_ext_refines_map :
+  forall (h : N -> N) (grow : N -> N -> bool) (auto : bool) (c : N) (ops : list op),
+    pow2cap c -> Forall2 obs_agree (easy_runx h grow auto (init c) ops) (srunx [] ops).
+Print Assumptions easy_ext_refines_map.
